@@ -90,7 +90,8 @@ type c01T4 struct {
 // reference-bearing arrays inside slices, struct map keys holding pointers, pointer to a struct
 // whose fields are all nil-able (its pointerified type is identical to the original)
 type c01T8 struct {
-	AP [][1]*c01sub
+	Tail []*c01sub // len 1, cap 3, live references in the hidden tail
+	AP   [][1]*c01sub
 	MK map[c01key]int8
 	PN *struct {
 		Tags  []int16
@@ -107,6 +108,8 @@ func mkT8() func() *c01T8 {
 	lv := zzverif.Int("dLevel")
 	return func() *c01T8 {
 		c := c01T8{}
+		known := []*c01sub{{V: v, W: "t0"}, {V: 2, W: "t1"}, {V: 3, W: "t2"}}
+		c.Tail = known[:1]
 		if apMode == 1 {
 			c.AP = [][1]*c01sub{{&c01sub{V: v, W: "w"}}}
 		}
